@@ -10,8 +10,11 @@
   C04.d question   all three question getters read type / class at (0,2) / (2,2) behind the question name, and locate that
                    position by the *wire* length of the name (final_offset of the copy, or raw_name_len), never by the length of
                    its decompressed form
+  C04.e name source  the name component of every (name, type, class) the getters build comes from the pointer-following decoder
+                   (copy_uncompressed_name / raw_name_to_str) applied to (packet(), offset_question), or from the cache; raw copies of
+                   packet bytes only where maybe_compressed is known false; question_raw derives from question_raw0
 
-Not decided: the three textual forms of the question name (loops over labels).  Cache coherence is C08.b.
+Not decided: the decoders' own label loops (byte identity of the three textual forms).  Cache coherence is C08.b.
 """
 from analysis import facts as F
 from analysis.bits import BV, BF, TOP, Interp, View, Undecided, ite
@@ -294,6 +297,100 @@ def question_rule(ctx, facts, cfg):
         ctx.violation(rid, '<floor>', 'question getters', 'found %d of 3 question getters' % n, kind='below-floor')
 
 
+def name_source_rule(ctx, facts, cfg):
+    """C04.e: where the bytes of the question name come from."""
+    rid = 'C04.e'
+    DEC_COPY = 'compress::Compress::copy_uncompressed_name'
+    DEC_STR = 'compress::Compress::raw_name_to_str'
+    CTORS = ('std::vec::Vec::<T>::with_capacity', 'std::vec::Vec::<T>::new')
+    n = 0
+    for fn in (PP + '::question_raw0', PP + '::question'):
+        f = facts.fn(fn)
+        if f is None:
+            ctx.missing(rid, fn)
+            continue
+        defs = F.single_defs(f)
+        dom = F.dominators(f)
+
+        def is_pkt(rs):
+            return bool(rs) and all(r[0] == 'call' and r[1] == PP + '::packet' for r in rs)
+
+        def is_cached(rs):
+            return bool(rs) and all(r[0] == 'load' and any(fl[1] == 'cached' for fl in F.fields_of(r[1])) for r in rs)
+
+        def is_qoff(rs):
+            return bool(rs) and all(r[0] == 'load' and F.last_field(r[1]) == (PP, 'offset_question') for r in rs)
+
+        # decoders applied to the question: (packet(), offset_question) or (cached name, 0)
+        filled = set()      # `at` of the Vec constructor calls whose vector a pointer-following copy fills
+        good_str = set()    # `at` of raw_name_to_str calls on the question
+        for bi, b in F.blocks(f):
+            t = b['term']
+            if t['k'] != 'call':
+                continue
+            p = F.call_path(t) or ''
+            if p == DEC_COPY and len(t['args']) >= 3:
+                if is_pkt(F.roots(f, defs, t['args'][1])) and is_qoff(F.roots(f, defs, t['args'][2])):
+                    for r in F.roots(f, defs, t['args'][0]):
+                        if r[0] == 'call' and r[1] in CTORS:
+                            filled.add(r[2].get('at'))
+            if p == DEC_STR and len(t['args']) >= 2:
+                a0, a1 = F.roots(f, defs, t['args'][0]), F.roots(f, defs, t['args'][1])
+                if (is_pkt(a0) and is_qoff(a1)) or (is_cached(a0) and all(r[0] == 'const' and str(r[1]) == '0' for r in a1)):
+                    good_str.add(t.get('at'))
+        # blocks where the packet is known to hold no compression pointers
+        plain = set()
+        for gi, gb in F.blocks(f):
+            t = gb['term']
+            if t['k'] == 'switch':
+                e = F.expr(f, defs, t['discr'])
+                neg = False
+                while e[0] == 'unop' and e[1] == 'Not':
+                    neg = not neg
+                    e = e[2]
+                if F.is_load_of(e, PP, 'maybe_compressed'):
+                    for v, tb in t['targets']:
+                        if (v == 0) != neg:
+                            plain.add(tb)
+                    if neg and all(v == 0 for v, _ in t['targets']):
+                        pass
+        for bi, b in F.blocks(f):
+            for st in b['stmts']:
+                if not (st['k'] == 'assign' and st['rv']['k'] == 'aggregate' and st['rv'].get('agg') == 'tuple' and len(st['rv']['ops']) == 3):
+                    continue
+                n += 1
+                bad = []
+                for r in F.roots(f, defs, st['rv']['ops'][0]):
+                    if r[0] == 'load' and any(fl[1] == 'cached' for fl in F.fields_of(r[1])):
+                        continue
+                    if r[0] == 'call' and r[1] == DEC_STR and r[2].get('at') in good_str:
+                        continue
+                    if r[0] == 'call' and r[1] in CTORS and r[2].get('at') in filled:
+                        continue
+                    # a raw copy is fine where the packet is known to be pointer-free
+                    rb = next((i_ for i_, b_ in F.blocks(f) if b_['term'] is r[2]), None) if r[0] == 'call' else None
+                    if rb is not None and any(pb in dom.get(rb, ()) or pb == rb for pb in plain):
+                        continue
+                    bad.append(r[1] if r[0] == 'call' else '%s %s' % (r[0], str(r[1])[:40]))
+                ctx.instance(rid, '%s: name component of the (name, type, class) tuple at %s comes from the pointer-following decoder applied to (packet, offset_question) or from the cache' % (fn.split('::')[-1], st.get('at')),
+                             ok=not bad, site=st.get('at'))
+                for what in sorted(set(bad)):
+                    ctx.violation(rid, fn, 'name-source:' + str(what).split('::')[-1], '%s can return a question name produced by `%s` instead of the pointer-following decoder (copy_uncompressed_name / raw_name_to_str on '
+                                  'packet(), offset_question): a question name written with a compression pointer comes back as raw wire bytes' % (fn.split('::')[-1], what), site=st.get('at'), config=cfg)
+    # question_raw derives from question_raw0
+    f = facts.fn(PP + '::question_raw')
+    if f is None:
+        ctx.missing(rid, PP + '::question_raw')
+    else:
+        calls = [F.call_path(b['term']) for _, b in F.blocks(f) if b['term']['k'] == 'call']
+        ok = (PP + '::question_raw0') in calls and not any(c in (DEC_COPY, DEC_STR) or (c or '').endswith('to_vec') for c in calls)
+        ctx.instance(rid, 'question_raw is question_raw0 minus the root label', ok=ok, site=f['at'])
+        if not ok:
+            ctx.violation(rid, PP + '::question_raw', 'not-derived', 'question_raw no longer derives its result from question_raw0', site=f['at'], config=cfg)
+    if n < 4:
+        ctx.violation(rid, '<floor>', 'name tuples', 'found %d (name, type, class) tuples in the question getters, expected at least 4' % n, kind='below-floor')
+
+
 def run(ctx):
     for cfg in ctx.configs():
         facts = ctx.facts(cfg)
@@ -301,4 +398,5 @@ def run(ctx):
         capture_rule(ctx, facts, cfg)
         count_rule(ctx, facts, cfg)
         question_rule(ctx, facts, cfg)
+        name_source_rule(ctx, facts, cfg)
     ctx.trust('tables/rfc_layout.json (RFC 1035 4.1.1/4.1.2, RFC 6891 6.1.2/6.1.3) and the bit specs in rules/C04.py, rules/C12.py')
